@@ -685,3 +685,34 @@ func heldAtDeep(p *packages.Package, fd *ast.FuncDecl, n ast.Node) map[string]bo
 	}
 	return out
 }
+
+// inDeferOrGo: the node lies in the call of a defer or go statement of this body — it is not executed where it is
+// written (a deferred call runs when the function returns, a go call at some later time).
+func (f *fnCFG) inDeferOrGo(n ast.Node) bool {
+	found := false
+	ast.Inspect(f.body, func(m ast.Node) bool {
+		var call *ast.CallExpr
+		switch s := m.(type) {
+		case *ast.DeferStmt:
+			call = s.Call
+		case *ast.GoStmt:
+			call = s.Call
+		}
+		if call != nil && call.Pos() <= n.Pos() && n.End() <= call.End() {
+			// (the arguments of a deferred call ARE evaluated in place, but the call itself is not; a node that is the
+			// call or lies in a function literal being deferred is late)
+			if n.Pos() == call.Pos() && n.End() == call.End() {
+				found = true
+			} else if lit, ok := call.Fun.(*ast.FuncLit); ok && lit.Pos() <= n.Pos() && n.End() <= lit.End() {
+				found = true
+			}
+		}
+		return !found
+	})
+	return found
+}
+
+// happensBefore: a dominates b and a is executed where it is written (not in a defer / go statement).
+func (f *fnCFG) happensBefore(a, b ast.Node) bool {
+	return f.dominates(a, b) && !f.inDeferOrGo(a)
+}
